@@ -70,7 +70,7 @@ class C05(Prop):
         self.rig.uninstall(asyncio.get_running_loop())
 
     def cases(self, tier, seed, shard, nshards):
-        n = {"quick": 3_200, "thorough": 40_000}[tier]
+        n = {"quick": 3_200, "thorough": 160_000}[tier]
         for i in range(shard, n, nshards):
             yield {"i": i, "seed": seed}
 
